@@ -236,7 +236,12 @@ pub fn check_engine_defaults(ctx: &mut Ctx, rv: &RefVoice, path: &Path) {
             // engine equals the hooked trajectories rendered with the *header's* settings
             let label: jlabel::Label = "xx^xx-sil+b=o/A:xx+xx+xx/B:xx-xx_xx/C:xx_xx+xx/D:xx+xx_xx/E:xx_xx!xx_xx-xx/F:xx_xx#xx_xx@xx_xx|xx_xx/G:4_4%0_xx_xx/H:xx_xx/I:xx-xx@xx+xx&xx-xx|xx+xx/J:1_4/K:1+1-4".parse().unwrap();
             let label2: jlabel::Label = "sil^b-o+N=s/A:-3+1+4/B:xx-xx_xx/C:02_xx+xx/D:xx+xx_xx/E:xx_xx!xx_xx-xx/F:4_4#0_xx@1_1|1_4/G:xx_xx%xx_xx_xx/H:xx_xx/I:1-4@1+1&1-1|1+4/J:xx_xx/K:1+1-4".parse().unwrap();
-            if let Ok(run) = crate::synth::run_with_hooks(&e, vec![label, label2]) {
+            // (a voice whose log-F0 vectors have more than one component loads, but the engine
+            // only synthesizes scalar log-F0: nothing to render then)
+            let renderable = rv.streams.get(1).map(|s| s.vector_length == 1).unwrap_or(false);
+            if !renderable {
+                ctx.count("loaded_but_not_renderable_voices", 1.0);
+            } else if let Ok(run) = crate::synth::run_with_hooks(&e, vec![label, label2]) {
                 let hp = crate::synth::VocoderParams {
                     nmcp: rv.streams[0].vector_length,
                     nlpf: if rv.streams.len() > 2 { rv.streams[2].vector_length } else { 0 },
@@ -479,6 +484,11 @@ pub fn run(ctx: &mut Ctx) {
         }
         if idx % 4 == 2 {
             o.trees_reversed = true;
+        }
+        if idx % 16 == 7 {
+            // an MSD stream whose vectors have more than one component
+            o.lf0_vlen = *rng.pick(&[2usize, 3]);
+            o.gv_lf0 = false;
         }
         let spec = voicegen::generate(&o, &env.pool, rng);
         let bytes = voicegen::write(&spec);
